@@ -6,7 +6,7 @@ WT=$(mktemp -d /tmp/seedone.XXXXXX); rmdir $WT
 git -C /repo worktree add -q --detach $WT HEAD || exit 9
 trap 'git -C /repo worktree remove --force $WT >/dev/null 2>&1; rm -f $WT.log' EXIT
 (cd $WT && (git apply $D/patch.diff 2>/dev/null || git apply --3way $D/patch.diff 2>/dev/null)) || { echo "$s: patch does not apply"; exit 3; }
-LISPCHECK_STRICT=1 /verif/bin/lispcheck -prop $PROPS -repo $WT -evidence-dir "" > $WT.log 2>&1; rc=$?
+LISPCHECK_STRICT=1 ${LISPCHECK:-/verif/bin/lispcheck} -prop $PROPS -repo $WT -evidence-dir "" > $WT.log 2>&1; rc=$?
 hits=$(grep -o "^VIOLATION property=C[0-9]*\|^UNDECIDED property=C[0-9]*" $WT.log | sed 's/VIOLATION property=//; s/UNDECIDED property=\(.*\)/\1(undecided)/' | sort -u | tr '\n' ' ')
 case " $hits " in *" $prop "*) echo "$s: detected by: $hits";; *) echo "$s: MISSED by $prop (fired: $hits)";; esac
 [ -n "$VERBOSE" ] && grep "violated:\|UNDECIDED" $WT.log | sed "s#$WT/##g" | cut -c1-300 | head -${VERBOSE}
